@@ -15,7 +15,8 @@
 -- expect: ababab	true
 -- expect: 4	ABC	abc
 -- expect: nil	true	12	s
--- expect: 12	31	100	nil	nil	nil	-7	5	nil
+-- expect[jit]: 12	31	100	nil	nil	nil	-7	5	nil
+-- expect[5.3]: 12	31	100.0	nil	nil	nil	-7	5	nil
 -- expect: nil	number	string	table	function	function	boolean
 -- expect: concat12
 -- expect: \n is not a newline	2
